@@ -316,11 +316,11 @@ class Concept(VersionedOntologyElement):
                 type_element.attrib['display-name-plural'],
                 type_element.attrib['description'],
             ).set_version(type_element.attrib['version'])
-        except KeyError as e:
+        except (KeyError, ValueError) as e:
             raise EDXMLOntologyValidationError(
                 "Failed to instantiate a concept from the following definition:\n" +
                 etree.tostring(type_element, pretty_print=True, encoding='unicode') +
-                "\nMissing attribute: " + str(e)
+                "\nMissing attribute or illegal value: " + str(e)
             )
 
     def __cmp__(self, other):
